@@ -584,6 +584,11 @@ func runC04(r *Run) {
 			c04Behind(r, i, r.Rng(int64(i)))
 		}
 	}
+	// an entry whose TTL is renewed while its expiry stands between the wheel's decision and the re-check (hook H2)
+	// must still be reclaimed within a tick of the NEW deadline (c02.go expireRecheckScenario, variant 2)
+	for i := 0; i < r.Pick(2, 12); i++ {
+		expireRecheckScenario(r, 2, "C04")
+	}
 	parMap(len(jobs), 14, func(i int) {
 		j := jobs[i]
 		rng := r.Rng(int64(i))
